@@ -1,7 +1,9 @@
 SPECIFICATION TraceSpec
 CONSTANTS
   Workers = {1,2,3,4,5,6,7,8,9,10,11,12,13,14,15,16,17,18,19,20,21,22,23,24,25,26,27,28,29,30,31,32,33,34,35,36,37,38,39,40}
+  Kinds = {"seq", "set"}
+  KeySet = {}
   Gens = 100
-INVARIANTS NoTornPopulation SizePreserved AllFresh FailureAtomic NoPartialCommit ErrIffFailure
+INVARIANTS NoTornPopulation SizePreserved CallsMatchSize AllFresh FailureAtomic NoPartialCommit ErrIffFailure
 POSTCONDITION TraceAccepted
 CHECK_DEADLOCK FALSE
